@@ -109,6 +109,14 @@ def answer(q):
 
 
 def main():
+    import resource
+    import signal
+    try:
+        resource.setrlimit(resource.RLIMIT_AS, (8 << 30, 8 << 30))
+    except (ValueError, OSError):
+        pass
+    signal.signal(signal.SIGALRM, signal.SIG_DFL)
+    signal.alarm(300)            # a whole history never takes minutes on a correct library
     import dyce
     repo = os.environ.get("DYCE_REPO", "/repo")
     assert os.path.realpath(dyce.__file__).startswith(os.path.realpath(repo) + os.sep)
